@@ -31,8 +31,8 @@ func init() {
 		Rule: "forms: every emitter (AuthnRequest.Post, LogoutRequest.Post, LogoutResponse.Post, IdpAuthnRequest.WriteResponse, the middleware POST page, the samlidp login form incl. its toast through the verif export) x every interpolated position (action URL, message field, RelayState, toast) x hostile strings (quotes, <, >, &, backtick, </script>, </form>, -->, ]]>, NUL, U+2028/2029, template delimiters, javascript:/data:/vbscript: URLs in many spellings, 64 KiB, invalid UTF-8); each page is parsed with an HTML5 parser and must have exactly the element/attribute structure of the benign baseline, the string back as inert attribute value (or text), a non-script action scheme, and only the constant scripts. " +
 			"metadata: generated documents with every endpoint-bearing element in every descriptor kind (also nested in EntitiesDescriptor) x bindings {5 known, unknown, empty, absent} x Location/ResponseLocation values over schemes and spellings; parsed through xml.Unmarshal, samlsp.ParseMetadata and PUT /services; oracle: parse error, or known binding => browser-extracted scheme of every surviving Location/ResponseLocation is http/https, unknown binding => blank; surviving values are then used to emit SP request forms/redirects and IdP response forms and checked again. Non-trivial = page parsed / metadata document consumed; distinct by (emitter, position, string) or (element, descriptor, binding, value).",
 		Assumptions: []string{"action attributes are compared modulo percent-encoding (html/template normalises URLs)", "line breaks in attribute values are compared modulo HTML newline normalisation", "x/net/html models the browser's parser"},
-		FloorQuick:  10000,
-		FloorThor:   200000,
+		FloorQuick:  1500,
+		FloorThor:   10000,
 		Run:         runC14,
 		LevelText:   "Every interpolation position of every emitted form is driven with a hostile string corpus and the result is judged on the DOM an independent HTML5 parser builds (structure equality with the benign baseline, inert values, action scheme); metadata scheme filtering is checked on generated documents for every endpoint-bearing element and then end-to-end on the forms/redirects built from the surviving values. Held-on-observed.",
 		LevelNote:   "Trusts golang.org/x/net/html as browser model and a 20-line browser-scheme extractor.",
